@@ -19,7 +19,10 @@ template<class T> struct ItemGen { static T make(int i) { return Gen<T>::make(i)
 
 // is_view(x): the object does not own its state but is a view of caller memory (wrapped Bloom filters). Copying a view yields
 // another view of the same memory by design, so the independence clause is applied to objects that own their state
-struct TrBase { template<class S> static bool is_view(const S&) { return false; } static const bool has_merge = true; static const bool has_reset = false; template<class S> static void reset(S&) {} static const bool obs_mutates = false; };
+struct TrBase { template<class S> static bool is_view(const S&) { return false; }
+  // residue(x): private state that no observation shows but that later operations depend on (allocation sizes, caches). It is part
+  // of the canonical state only (two states are merged only if their futures are the same), never of an equality a copy must meet
+  template<class S> static std::string residue(S&) { return std::string(); } static const bool has_merge = true; static const bool has_reset = false; template<class S> static void reset(S&) {} static const bool obs_mutates = false; };
 
 template<class T, int KIND> struct QuantTr : TrBase {
   typedef typename QuantTypes<T, KIND>::Sk Sk; typedef typename LessOf<T>::type C;
@@ -42,6 +45,7 @@ template<class T, int KIND> struct QuantTr : TrBase {
   }
   template<int K = KIND> static typename std::enable_if<K != 1, std::string>::type hidden(Sk&) { return std::string(); }
   static std::string obs(Sk& s) { return QObj<Sk, T, KIND>::obs_of(s) + hidden(s); }
+  static std::string residue(Sk& s) { return s.sorted_view_ != nullptr ? "cached-view" : ""; }
   static void ser(Sk& s) { s.serialize(0, typename SerdeOf<T>::type()); }
 };
 struct ThetaUpdTr : TrBase {
@@ -51,6 +55,7 @@ struct ThetaUpdTr : TrBase {
   static const bool has_merge = false; static void merge(Sk&, const Sk&) {} static void merge_move(Sk&, Sk&&) {}
   static const bool has_reset = true; static void reset(Sk& s) { s.reset(); }
   static std::string obs(Sk& s) { return theta_obs(s) + "|lgk=" + str((int)s.get_lg_k()); }
+  static std::string residue(Sk& s) { return "lgcur" + str((int)s.table_.lg_cur_size_); }
   static void ser(Sk& s) { s.compact().serialize(); }
 };
 struct ThetaCompactTr : TrBase {
@@ -213,6 +218,7 @@ struct FiTr : TrBase {
   static void a(Sk& s, int n) { s.update(Item(n), 2); } static void b(Sk& s, int n) { for (int i = 0; i < 9; ++i) s.update(Item(100 * n + i), 1 + i % 3); }
   static void merge(Sk& s, const Sk& o) { s.merge(o); } static void merge_move(Sk& s, Sk&& o) { s.merge(std::move(o)); }
   static std::string obs(Sk& s) { return FiObj<Item>::obs_of(s); }
+  static std::string residue(Sk& s) { return "lgcur" + str((int)s.map.lg_cur_size_); }
   static void ser(Sk& s) { s.serialize(0, ItemSerde()); }
 };
 struct CmTr : TrBase {
@@ -230,6 +236,7 @@ struct VoTr : TrBase {
   static const bool has_merge = false; static void merge(Sk&, const Sk&) {} static void merge_move(Sk&, Sk&&) {}
   static const bool has_reset = true; static void reset(Sk& s) { s.reset(); }
   static std::string obs(Sk& s) { return varopt_obs<Item>(s); }
+  static std::string residue(Sk& s) { return "alloc" + str(s.curr_items_alloc_) + (s.filled_data_ ? "F" : "f"); }
   static void ser(Sk& s) { s.serialize(0, ItemSerde()); }
 };
 struct VuTr : TrBase {
@@ -365,7 +372,7 @@ struct LifeSys {
   std::string canon(State& st) {
     Sched sc(0, 5150);
     std::string c;
-    for (int i = 0; i < NS; ++i) { const Slot& s = st.s[i]; c += "[" + str(s.st) + "," + str(s.na) + "," + str(s.nb); if (s.st == LIVE) c += "," + Tr::obs(*s.p); if (s.st == MOVED) c += std::string(",by-") + s.moved_by; c += "]"; }
+    for (int i = 0; i < NS; ++i) { const Slot& s = st.s[i]; c += "[" + str(s.st) + "," + str(s.na) + "," + str(s.nb); if (s.st == LIVE) c += "," + Tr::obs(*s.p) + "~" + Tr::residue(*s.p); if (s.st == MOVED) c += std::string(",by-") + s.moved_by; c += "]"; }
     return c;
   }
   // destructive end-of-history check: all slots die, nothing may remain allocated, every item destroyed exactly once
